@@ -175,6 +175,9 @@ struct Gen {
     ops: Vec<Op>,
     next_id: u64,
     submit_ids: Vec<u64>,
+    /// how many fresh submissions each account has made so far (to aim foreign spenders at busy
+    /// accounts)
+    busy: Vec<u32>,
     f_gap: bool,
     f_dup: bool,
     f_foreign: bool,
@@ -229,7 +232,11 @@ impl Gen {
     fn body(&mut self, acct: usize, big: bool) -> Body {
         let kind = self.r.weighted(&[6, 3]);
         if kind == 0 {
-            let asset = self.r.below_usize(self.cfg.n_assets);
+            let asset = if big && self.r.chance(2, 3) {
+                0
+            } else {
+                self.r.below_usize(self.cfg.n_assets)
+            };
             let bal = self.cfg.init_balance[acct][asset];
             let pct: u64 = if big {
                 *self.r.pick(&[45, 70, 90, 99])
@@ -253,7 +260,7 @@ impl Gen {
             }
         } else {
             Body::Seq {
-                len: *self.r.pick(&[0, 1, 3, 10, 40]),
+                len: *self.r.pick(&[1, 2, 3, 10, 40]),
                 fee_asset: self.fee_asset(),
             }
         }
@@ -289,6 +296,7 @@ impl Gen {
         };
         let via = self.via();
         let gap = self.gap();
+        self.busy[acct] += 1;
         let id = self.push(
             gap,
             OpKind::Submit {
@@ -353,7 +361,7 @@ impl Gen {
         let n = 14 + self.r.below(6) as u32;
         for k in 1..=n {
             let body = Body::Seq {
-                len: 0,
+                len: 1,
                 fee_asset: 0,
             };
             let via = self.via();
@@ -380,8 +388,17 @@ impl Gen {
         let mut foreign = Vec::new();
         if !flush && self.f_foreign && self.r.chance(1, 2) {
             for _ in 0..=self.r.below(2) {
-                let acct = self.r.below_usize(self.cfg.n_accounts);
-                let big = self.r.chance(2, 3);
+                // mostly the account with the most submissions so far: its pending transactions
+                // lose their nonce slot and/or their funding
+                let busiest = (0..self.cfg.n_accounts)
+                    .max_by_key(|a| (self.busy[*a], *a))
+                    .unwrap_or(0);
+                let acct = if self.r.chance(2, 3) {
+                    busiest
+                } else {
+                    self.r.below_usize(self.cfg.n_accounts)
+                };
+                let big = self.r.chance(3, 4);
                 let body = if acct == 0 && self.f_feechange && self.r.chance(1, 3) {
                     Body::FeeChange {
                         target: self.r.below(2) as u8,
@@ -433,13 +450,13 @@ pub fn generate(profile: &str, tier: &str, seed: u64) -> Scenario {
     let n_accounts = 2 + r.below_usize(4);
     let n_assets = 1 + r.below_usize(MAX_ASSETS);
     let n_fee_assets = 1 + r.below_usize(n_assets);
-    let tight = r.chance(3, 4);
+    let tight = r.chance(3, 5);
     let mut init_balance = Vec::new();
     for _ in 0..n_accounts {
         let mut row = Vec::new();
         for asset in 0..n_assets {
             let b: u64 = if tight {
-                *r.pick(&[0, 40, 150, 600, 5_000, 1_000_000_000_000])
+                *r.pick(&[0, 40, 150, 600, 5_000, 50_000, 1_000_000_000_000])
             } else if asset == 0 {
                 1_000_000_000_000_000
             } else {
@@ -458,7 +475,7 @@ pub fn generate(profile: &str, tier: &str, seed: u64) -> Scenario {
         n_accounts,
         n_assets,
         n_fee_assets,
-        parked_max: *r.pick(&[2, 4, 6, 10, 16, 30, 100]),
+        parked_max: *r.pick(&[2, 5, 10, 16, 30, 100, 100]),
         exec_cache: *r.pick(&[1, 3, 100]),
         yield_pct: *r.pick(&[0, 5, 20, 50]),
         sched_seed: r.next_u64(),
@@ -485,6 +502,7 @@ pub fn generate(profile: &str, tier: &str, seed: u64) -> Scenario {
         ops: Vec::new(),
         next_id: 1,
         submit_ids: Vec::new(),
+        busy: vec![0; n_accounts],
     };
     let f_flood = r.chance(1, 6);
     let n_ops = if thorough {
